@@ -93,6 +93,9 @@ def _items(variant):
     it["H1c"] = b"\xe0"
     it["H1d"] = b"\xf9"
     it["H3"] = b"\x00\x19\x00"
+    # the word one above the largest registered ID (0x1923 -> 19 24): a table indexed by the ID is one entry short for it
+    it["M2"] = b"\x19\x24"
+    it["M2v"] = b"\xf9\x24"  # the same with version bits set
     # other registered IDs (shards "idset"): a TC with the APID of A (same APID, other packet type), the idle APID 0x7FF, and a
     # packet of ID A whose version field is not 0 (the packet ID is type, secondary-header flag and APID: it is registered)
     it["E8"] = _pkt(E_ID, 8, 9, variant)
@@ -106,6 +109,7 @@ def _items(variant):
     it["K8"] = _pkt(H_ID, 8, 13, variant)
     it["Sfh"] = b"\x03\x18"
     it["Shf"] = b"\x05\x08"
+    it["Sm"] = b"\x18\x06"  # one above the larger of the two IDs
     # the largest packets the length field allows (total 65536 / 65542 octets, length field 0xFFF9 / 0xFFFF)
     it["A65536"] = _pkt(A, 65536, 7, variant)
     it["A65542"] = _pkt(A, 65542, 8, variant)
@@ -181,7 +185,7 @@ def extra_stream_names():
     return out
 
 
-HALF_ID_GARBAGE = ("H2", "H1a", "H1b", "H1c", "H1d", "H3")
+HALF_ID_GARBAGE = ("H2", "H1a", "H1b", "H1c", "H1d", "H3", "M2", "M2v")
 HUGE_STREAMS = (["A65536"], ["A65542"], ["A7", "A65542", "B8"], ["A65536", "T3"])
 # a third registered ID that never occurs in a stream, and the six orders in which a caller may list the three IDs
 C_ID = (1, 0, 0x2AA)
@@ -199,7 +203,7 @@ def straddle_stream_names():
     in the other two it is stray data that no window of which is a registered ID)"""
     out = []
     for L in range(2, 4):
-        for body in itertools.product(("F7", "K8", "Sfh", "Shf"), repeat=L):
+        for body in itertools.product(("F7", "K8", "Sfh", "Shf", "Sm"), repeat=L):
             if not any(b[0] == "S" for b in body) or not any(b[0] != "S" for b in body):
                 continue
             if any(body[i][0] == "S" == body[i + 1][0] for i in range(L - 1)):
